@@ -45,3 +45,13 @@ def run(ctx):
     from ..engines import provenance as PV13
     PV13.a13_add_rule_bookkeeping(ctx)
     ctx.floor("A13", 3)
+    # rules shared after round 11: the clause is necessary for this property as well
+    from ..engines import statepickle as R16
+    from ..engines import expandverified as X16
+    R16.r3_interruption_points(ctx)
+    X16.x4_verified_stop_respects_flag(ctx)
+    ctx.floor("R3", 1)
+    ctx.floor("X4", 1)
+    from ..engines import dispatch as DP16
+    DP16.d5b_flag_properties_forward_their_own_flag(ctx)
+    ctx.floor("D5", 3)
